@@ -85,6 +85,8 @@ class Gen:
         return self.r.choice([
             "hello", "it's", 'say "x"', "a b", "", " lead", "trail ", "two\nlines", "a\nb\n c", "{x}", "// no",
             "/* c */", "semi;colon", "tab\there", "ünï", "'", '"', "'''", '"""', "q'\"q", "line1\n  indented\nline3",
+            # characters that str.splitlines() takes for line breaks although neither the lexer nor the writers do
+            "sep\u2028arated", "next\x85line", "v\x0btab", "para\u2029", "two\nlines and more",
         ])
 
     def pos(self):
